@@ -262,6 +262,7 @@ def rule_injective(program, ctx, prop=P, rid="C10.injective"):
     )
     kv = program.module("nostr_relay.storage.kv")
     want = {"CreatedIndex": "event.created_at", "KindIndex": "event.kind", "PubkeyIndex": "event.pubkey", "AuthorKindIndex": "(event.pubkey, event.kind)", "IdIndex": None}
+    seen_wr = set()
     for name, ci, node in registry(program):
         if ci is None:
             continue
@@ -277,6 +278,22 @@ def rule_injective(program, ctx, prop=P, rid="C10.injective"):
                                            "superseded or garbage-collected) under a value it does not have"))
                     else:
                         ctx.ok(rid, c, f"{ci.node.name}.to_key: {ast.unparse(c)[:60]}")
+        wr = program.func_opt("nostr_relay.storage.kv:Index.write")
+        if wr is not None and id(wr) not in seen_wr:
+            seen_wr.add(id(wr))
+            loop = next((l for l in walk_no_nested(wr) if isinstance(l, ast.For) and "convert" in ast.unparse(l.iter) and isinstance(l.target, ast.Name)), None)
+            if loop is None:
+                ctx.bad(finding_func(prop, rid, wr, "Index.write no longer iterates self.convert(event)", text="def write(...) :: convert"))
+            else:
+                kv_ = loop.target.id
+                for b in ast.walk(loop):
+                    if isinstance(b, ast.BinOp) and isinstance(b.op, ast.Mod) and isinstance(b.left, ast.Constant) and isinstance(b.left.value, bytes):
+                        first = b.right.elts[0] if isinstance(b.right, ast.Tuple) and b.right.elts else b.right
+                        if dotted(first) == kv_:
+                            ctx.ok(rid, b, "entry = <converted key> \\0 <created_at> \\0 <id>, key unmodified")
+                        else:
+                            ctx.bad(finding_at(prop, rid, b, f"the index entry is built from `{ast.unparse(first)[:40]}`, not from the converted key itself: a shortened key files the event under a "
+                                               "value it does not have (scans use the full value and never find it)"))
         cv = ci.methods.get("convert")
         if cv is not None and ci.node.name in want and want[ci.node.name]:
             ys = [y for y in walk_no_nested(cv) if isinstance(y, ast.Yield)]
@@ -299,6 +316,10 @@ def run(program, ctx):
     rule_keyspace(program, ctx)
     rule_injective(program, ctx)
     c07.rule_ctxmgr(program, ctx, prop=P, rid="C10.ctxmgr")
+    from . import c01
+
+    # the tag keys re-derived from the stored record (tuples, not lists) for deletion are the keys that were written
+    c01.rule_tagindex(program, ctx, prop=P, rid="C10.tagindex")
     # one region / no swallowing handler: same constructs as C07.kvregion
     ridr = ctx.rule("C10.region", "all index mutations of one task inside one write transaction, no handler inside it swallows a failed write (see C07.kvregion)", floor=1)
     run_fn = program.func("nostr_relay.storage.kv:WriterThread.run")
